@@ -207,12 +207,15 @@ def two_arg(fn, ua, ub, r1, r2, point=False, only=None):
     c = common_rep(r1, r2)
     x = c if fn in ("min", "max") else cmath_rep(r1, r2)
     exp = x
-    call = "au::%s(%s(a), %s(b))" % (fn, mk(ua, point), mk(ub, point))
+    # min / max / clamp are called unqualified (argument-dependent lookup), the way the hidden friends for identical types
+    # are meant to be reached; a qualified au::min(q, q) of identical Quantity types is ambiguous with std::min
+    ns_ = "" if fn in ("min", "max") else "au::"
+    call = "%s%s(%s(a), %s(b))" % (ns_, fn, mk(ua, point), mk(ub, point))
     va, vb = (only[0], only[1]) if only else (vals(r1, n1, c), vals(r2, n2, c))
     body = TWO % {"id": 0, "r1": r1, "r2": r2, "ca": c, "cb": c, "xa": x, "xb": x, "exp": exp, "n1": n1, "n2": n2, "o1": o1,
                   "o2": o2, "picks": "true" if fn in ("min", "max") else "false", "call": call, "expect": STD2[fn],
                   "pre": "true", "A": arr("A", va), "B": arr("B", vb)}
-    probe = "(void)au::%s(%s(static_cast<%s>(1)), %s(static_cast<%s>(1)));" % (fn, mk(ua, point), r1, mk(ub, point), r2)
+    probe = "(void)%s%s(%s(static_cast<%s>(1)), %s(static_cast<%s>(1)));" % (ns_, fn, mk(ua, point), r1, mk(ub, point), r2)
     if fn == "arctan2":
         unit = (model.LIB_BY_STEM["radians"].mag, model.LIB_BY_STEM["radians"].dim)
     else:
@@ -242,12 +245,12 @@ def three_arg(us, rs, point=False, only=None):
         return None
     cm, ns, offs = cu
     c = common_rep(*rs)
-    call = "au::clamp(%s(a), %s(b), %s(c))" % tuple(mk(u, point) for u in us)
+    call = "clamp(%s(a), %s(b), %s(c))" % tuple(mk(u, point) for u in us)
     vs = only if only else [vals(r, n, c, small=True) for r, n in zip(rs, ns)]
     body = THREE % {"id": 0, "r1": rs[0], "r2": rs[1], "r3": rs[2], "c": c, "c12": common_rep(rs[0], rs[1]), "c13": common_rep(rs[0], rs[2]), "n1": ns[0], "n2": ns[1], "n3": ns[2],
                     "o1": offs[0], "o2": offs[1], "o3": offs[2], "call": call, "A": arr("A", vs[0]), "B": arr("B", vs[1]),
                     "C": arr("C3", vs[2])}
-    probe = "(void)au::clamp(%s);" % ", ".join("%s(static_cast<%s>(1))" % (mk(u, point), r) for u, r in zip(us, rs))
+    probe = "(void)clamp(%s);" % ", ".join("%s(static_cast<%s>(1))" % (mk(u, point), r) for u, r in zip(us, rs))
     desc = "clamp:%su=%s:r=%s" % ("point:" if point else "", ",".join(u.name for u in us), ",".join(rs))
     pred = all(policy_ok(common_rep(rs[0], r), n, o) and policy_ok(c, n, o) for r, n, o in zip(rs, ns, offs))
     return Inst("three", "clamp", desc, body, "run_three", probe, (cm, us[0].mu.dim), tuple(rs),
